@@ -27,14 +27,21 @@ type c07Tunnel struct {
 
 func CheckC07(l *Lab, verifDir string) int {
 	rep := NewReport("C07", l.Tier, l.Seed, "exploration", verifDir)
-	rep.Rule = "rounds of N in {1,2,3,8,16,32,64} concurrent tunnels against the race-instrumented real binary, every tunnel with its own user, token, backend (port == user name, host policy 127.0.0.1:{{ preferred_username }}), generator keys and script: full session with bidirectional streams, idle open/close, channel-create to a neighbour's host, rejected cookie, out-of-order step, a neighbour's cookie with the own host, legacy IN with a connection id that differs from a live tunnel's id in case or one character; mixed transports, PRNG start offsets, delay points at registry / legacy.attach / process.afterRead. Oracle: each tunnel's trace equals what the reference automaton predicts for that tunnel alone, every relayed byte belongs to the tunnel's own generators, each backend accepted exactly the connections its own user's successful channel-creates made. non-trivial = tunnel got a response; distinct = interleaving signatures of rounds + script x transport x outcome"
+	rep.Rule = "rounds of N in {1,2,3,8,16,32,64} concurrent tunnels against the race-instrumented real binary, every tunnel with its own user, token, backend (port == user name, host policy 127.0.0.1:{{ preferred_username }}), generator keys and script: full session with bidirectional streams, idle open/close, channel-create to a neighbour's host, rejected cookie, out-of-order step, a neighbour's cookie with the own host, legacy IN with a connection id that differs from a live tunnel's id in case or one character; after every round: two tunnels of one login session from two addresses (sequentially interleaved, and with their cookie checks in flight together behind a slowed userinfo endpoint, beside a third user's), two users' channels to one host name (localhost) on their own ports one right after the other; mixed transports, PRNG start offsets, delay points at registry / legacy.attach / process.afterRead. Oracle: each tunnel's trace equals what the reference automaton predicts for that tunnel alone, every relayed byte belongs to the tunnel's own generators, each backend accepted exactly the connections its own user's successful channel-creates made. non-trivial = tunnel got a response; distinct = interleaving signatures of rounds + script x transport x outcome"
 	rounds := l.Pick(30, 600)
 	sizes := []int{1, 2, 3, 8, 16, 32, 64}
 	rnd := NewRand(l.Seed, "c07")
 	kinds := []string{"openid", "ntlm"}
 	for ki, kind := range kinds {
+		kind := kind
 		m, err := l.NewMultiFixture(MultiOpts{Kind: kind, N: 64, Race: true,
-			Points: "registry=40:500,legacy.attach=40:800,process.afterRead=20:300,tunnel.write=5:100"})
+			Points: "registry=40:500,legacy.attach=40:800,process.afterRead=20:300,tunnel.write=5:100",
+			Mutate: func(c *GWConfig) {
+				if kind == "ntlm" {
+					// every user's host is also allowed under a name: tunnels to one name and different ports
+					c.Hosts = append(c.Hosts, "localhost:{{ preferred_username }}")
+				}
+			}})
 		if err != nil {
 			rep.Inconclusive("fixture: " + err.Error())
 			continue
@@ -155,6 +162,9 @@ func c07Round(rep *Report, m *MultiFixture, round int, ts []c07Tunnel) {
 	}
 	if round%2 == 0 {
 		c07InRace(rep, m, round, "C07")
+	}
+	if m.Kind == "ntlm" {
+		c07NamedHosts(rep, m, round)
 	}
 	if m.Kind == "openid" {
 		c07TwoAddresses(rep, m, round)
@@ -799,6 +809,90 @@ func c07OverlappingCookieChecks(rep *Report, m *MultiFixture, round int) {
 		}
 	}
 reset:
+	u.B.Reset()
+	v.B.Reset()
+}
+
+// c07NamedHosts: two users open channels to the same host *name* ("localhost") on their own ports, one
+// right after the other. Each backend must get exactly its own tunnel's connection and bytes, each
+// client its own host's bytes: nothing remembered about a name by one tunnel may steer another.
+func c07NamedHosts(rep *Report, m *MultiFixture, round int) {
+	u := m.Users[round%len(m.Users)]
+	v := m.Users[(round+7)%len(m.Users)]
+	if u == v {
+		return
+	}
+	if round%2 == 1 {
+		u, v = v, u
+	}
+	tr := Transports()[round%len(Transports())]
+	W := 10 * time.Second
+	type res struct {
+		st   uint32
+		bc   *BConn
+		t    *TClient
+		mark []byte
+	}
+	open := func(usr *MUser) (*res, error) {
+		env := m.Env(usr, tr)
+		env.W = W
+		t, _, _, err := m.Stage(env, usr, 3)
+		if err != nil {
+			return nil, err
+		}
+		mu := backendLock(usr.B)
+		mu.Lock()
+		defer mu.Unlock()
+		n := len(usr.B.Conns())
+		t.Send(ChannelCreate("localhost", uint16(usr.B.Port)))
+		r := &res{t: t, mark: []byte(fmt.Sprintf("named-host-probe:%s:%d;", usr.Name, round))}
+		if got, _ := t.WaitPackets(4, W); got < 4 {
+			t.Close()
+			return nil, fmt.Errorf("channel create to localhost:%d not answered", usr.B.Port)
+		}
+		r.st, _ = LenientStatus(t.Snapshot().Packets[3].Raw)
+		if r.st == 0 {
+			r.bc = usr.B.WaitConn(n, 3*time.Second)
+			t.Send(Data(r.mark))
+		}
+		return r, nil
+	}
+	a, err := open(u)
+	if err != nil {
+		rep.Inconclusive("named-hosts probe: " + err.Error())
+		return
+	}
+	defer a.t.Close()
+	b, err := open(v)
+	if err != nil {
+		rep.Inconclusive("named-hosts probe: " + err.Error())
+		return
+	}
+	defer b.t.Close()
+	rep.Eval(HashStr("named-hosts", tr, a.st, b.st, a.bc != nil, b.bc != nil))
+	rep.Count("named_host_probes", 1)
+	for i, x := range []*res{a, b} {
+		usr := []*MUser{u, v}[i]
+		who := fmt.Sprintf("user %s (tunnel %d of 2 to the name localhost, port %s, %s)", usr.Name, i+1, usr.Name, tr)
+		if x.st != 0 {
+			rep.Violate("C07/unexpected-response/named-hosts/"+tr, fmt.Sprintf("%s: channel create to its own host under the allowed name answered %#x", who, x.st), nil)
+			continue
+		}
+		if x.bc == nil {
+			rep.Violate("C07/foreign-connection/named-hosts/"+tr, fmt.Sprintf("%s: the gateway reported success but the user's own host localhost:%s accepted no connection (hosts of the two users now hold %d and %d connections)", who, usr.Name, len(u.B.Conns()), len(v.B.Conns())), nil)
+			continue
+		}
+		x.bc.WaitBytes(len(x.mark), 5*time.Second)
+		if got := x.bc.Received(); !bytes.Equal(got, x.mark) {
+			rep.Violate("C07/foreign-bytes-at-host/named-hosts/"+tr, fmt.Sprintf("%s: its host received %q, its client sent %q", who, got, x.mark), nil)
+		}
+		back := []byte("from-host:" + usr.Name + ";")
+		x.bc.C.Write(back)
+		x.t.WaitDataBytes(len(back), 5*time.Second)
+		if pl, _ := x.t.Snapshot().DataPayload(); !bytes.Equal(pl, back) {
+			rep.Violate("C07/foreign-bytes-at-client/named-hosts/"+tr, fmt.Sprintf("%s: its client received %q, its host sent %q", who, pl, back), nil)
+		}
+	}
 	u.B.Reset()
 	v.B.Reset()
 }
